@@ -31,8 +31,8 @@ CONSTANTS MaxD,          \* maximal nesting depth of statements / expressions
           NPlain         \* a behaviour draws its mode in Init from NPlain x "plain", 1 x "noret", 1 x "undef", so that
                          \* one -simulate run yields the three categories in that proportion
 
-VARIABLES out, todo, used, defd, casen, swn, defsw, steps, globs, done, mode
-vars == <<out, todo, used, defd, casen, swn, defsw, steps, globs, done, mode>>
+VARIABLES out, todo, used, defd, casen, swn, defsw, steps, globs, done, mode, vm
+vars == <<out, todo, used, defd, casen, swn, defsw, steps, globs, done, mode, vm>>
 
 ModeMix == [i \in 1..NPlain + 2 |-> IF i <= NPlain THEN "plain" ELSE IF i = NPlain + 1 THEN "noret" ELSE "undef"]
 UndefGoto == mode = "undef"     \* leave pending goto labels undefined (known finding)
@@ -98,6 +98,18 @@ GlobTab == <<
   [decl |-> "unsigned g25[2][1] = {U\"a\", U\"b\"};",        name |-> "g25", size |-> 8,  align |-> 4],
   [decl |-> "struct { char c; unsigned w[2]; } g26 = {1, U\"ab\"};", name |-> "g26", size |-> 12, align |-> 4],
   [decl |-> "unsigned short g27[3] = u\"ab\";",                name |-> "g27", size |-> 6,  align |-> 2] >>
+
+(* functions with variably modified PARAMETERS (pointer to VLA, array parameter; 1 and 2 variable dimensions) whose  *)
+(* length expressions contain control flow (?:, &&, ||) - they are evaluated in the start block, which also receives *)
+(* the hoisted allocs of the parameters and of every later block-scope declaration                                    *)
+VmTab == <<
+  "int vp1(int n, int c, int (*p)[c ? n : 1]) { return (int)sizeof(*p); }",
+  "int vp2(int n, int c, int (*p)[(n && c) + 1]) { int loc = n; loc += (*p)[0]; return (int)sizeof(*p) + loc; }",
+  "int vp3(int n, int c, int (*p)[(n || c) + 1][c ? n : 2]) { int loc = n; { int arr[3] = {1, 2, 3}; loc += arr[1]; } return (int)sizeof(*p) + loc; }",
+  "int vp4(int n, int c, int a[c ? n : 1][(n && c) + 1]) { long t = 0; int q[2] = {0}; while (c--) { int z = c; t += z; } return (int)sizeof(a[0]) + (int)t + q[0]; }",
+  "void vp5(int n, int c, int (*p)[c ? n : 1], double (*q)[(n || c) + 1]) { int x = n; if (x) { long y = c; (*q)[0] = (double)y; } (*p)[0] = x; }",
+  "int vp6(int n, int (*p)[n]) { int x = 1; return (int)sizeof *p + x; }",
+  "int vp7(int n, int c, char (*p)[(c ? n : 1) + (n && c)][n > 1 || c ? 2 : 3]) { struct { int a; long b; } s = {n, c}; int k[2]; k[0] = s.a; return (int)sizeof(**p) + k[0]; }" >>
 
 (* ------------------------------------------------------------------------ *)
 Leafy(sym) == sym.d >= MaxD \/ steps >= MaxSteps
@@ -191,7 +203,7 @@ Expand(rhs) == ExpandCtx(rhs, Head(todo).d + 1, Head(todo).lp, Head(todo).sw)
 Plain ==
   /\ ~done /\ todo # <<>>
   /\ LET R == Rhs(Head(todo)) IN \E r \in 1..Len(R) : Expand(R[r])
-  /\ UNCHANGED <<used, defd, casen, swn, defsw, globs, done, mode>>
+  /\ UNCHANGED <<used, defd, casen, swn, defsw, globs, done, mode, vm>>
 
 (* productions with side effects (statement nonterminals only) *)
 Sym == Head(todo)
@@ -203,14 +215,14 @@ Goto ==
        /\ \/ Expand(<<"goto", Lab(k), ";">>)
           \/ ~Leafy(Sym) /\ Expand(<<"if (", "@C", ") goto", Lab(k), ";">>)
        /\ used' = used \cup {k}
-  /\ UNCHANGED <<defd, casen, swn, defsw, globs, done, mode>>
+  /\ UNCHANGED <<defd, casen, swn, defsw, globs, done, mode, vm>>
 
 Label ==
   /\ IsS /\ ~Leafy(Sym)
   /\ \E k \in (1..NLabels) \ defd :
        /\ Expand(<<Lab(k), ":", "@S">>)
        /\ defd' = defd \cup {k}
-  /\ UNCHANGED <<used, casen, swn, defsw, globs, done, mode>>
+  /\ UNCHANGED <<used, casen, swn, defsw, globs, done, mode, vm>>
 
 Switch ==
   /\ IsS /\ ~Leafy(Sym)
@@ -223,19 +235,19 @@ Switch ==
                        [] shape = 3 -> <<"{", S1, S1, "}", S1>>)
                  \o <<"}">>, Sym.d + 1, Sym.lp, id)
   /\ swn' = swn + 1
-  /\ UNCHANGED <<used, defd, casen, defsw, globs, done, mode>>
+  /\ UNCHANGED <<used, defd, casen, defsw, globs, done, mode, vm>>
 
 Case ==
   /\ IsS /\ Sym.sw # 0 /\ ~Leafy(Sym)
   /\ Expand(<<"case", ToString(casen), ":", "@S">>)
   /\ casen' = casen + 1
-  /\ UNCHANGED <<used, defd, swn, defsw, globs, done, mode>>
+  /\ UNCHANGED <<used, defd, swn, defsw, globs, done, mode, vm>>
 
 Default ==
   /\ IsS /\ Sym.sw # 0 /\ Sym.sw \notin defsw /\ ~Leafy(Sym)
   /\ Expand(<<"default", ":", "@S">>)
   /\ defsw' = defsw \cup {Sym.sw}
-  /\ UNCHANGED <<used, defd, casen, swn, globs, done, mode>>
+  /\ UNCHANGED <<used, defd, casen, swn, globs, done, mode, vm>>
 
 (* the body is complete: define the labels that are still pending.  (Single successor: in -simulate TLC *)
 (* evaluates the invariant - and so prints - on every candidate successor, not only the one it takes.)  *)
@@ -245,18 +257,19 @@ Finish ==
          tail == IF UndefGoto THEN <<>> ELSE [i \in 1..NLabels |-> IF i \in pend THEN Lab(i) \o ": ;" ELSE ""]
      IN out' = out \o tail
   /\ done' = TRUE
-  /\ UNCHANGED <<todo, used, defd, casen, swn, defsw, steps, globs, mode>>
+  /\ UNCHANGED <<todo, used, defd, casen, swn, defsw, steps, globs, mode, vm>>
 
 Init ==
   /\ out = <<>> /\ used = {} /\ defd = {} /\ casen = 1 /\ swn = 0 /\ defsw = {} /\ steps = 0 /\ done = FALSE
   /\ \E g1, g2, g3 \in 1..Len(GlobTab) : g1 < g2 /\ g2 < g3 /\ globs = <<GlobTab[g1], GlobTab[g2], GlobTab[g3]>>
   /\ todo = <<N("B", 0, FALSE, 0), N("B", 0, FALSE, 0)>>
   /\ \E i \in DOMAIN ModeMix : mode = ModeMix[i]
+  /\ \E i \in DOMAIN VmTab : vm = VmTab[i]
 
 Next == Plain \/ Goto \/ Label \/ Switch \/ Case \/ Default \/ Finish
 Spec == Init /\ [][Next]_vars
 
 Emit ==
-  done => PrintT("VCASE " \o ToJson([toks |-> out, globs |-> globs, undef |-> (UndefGoto /\ used \ defd # {}), mode |-> mode,
+  done => PrintT("VCASE " \o ToJson([toks |-> out, globs |-> globs, undef |-> (UndefGoto /\ used \ defd # {}), mode |-> mode, vm |-> vm,
                                      nsw |-> swn, ncase |-> casen - 1, labels |-> Cardinality(used \cup defd), steps |-> steps]))
 =============================================================================
